@@ -378,6 +378,26 @@ theorem checkCert_received_iff (o : PtOracle) (verify : PubKey → Bytes → Sig
   · rintro ⟨h1, h2, h3, h4, s, hs, hv⟩
     exact ⟨h1, h2, h3, h4, _, s, recvSigned_of_canonical c b s hs hm, hs, hv⟩
 
+
+/-! ## further non-vacuity examples -/
+
+/-- hypothesis of `parse_marshal_canonical` / `checkCert_over_received_bytes`: a blob that parses -/
+example : parseCertKey noPts wCanon = some wCert := by decide +kernel
+
+/-- `authenticate_iff`: a user certificate signed by a listed authority is accepted … -/
+example : authenticate ⟨some [wCert.sigKey.marshal], .unset⟩ (.cert wCert) (fun _ => .accept) = .accept := by
+  decide +kernel
+/-- … and rejected when the authority list does not contain its CA, or it is presented as a host key -/
+example : authenticate ⟨some [], .unset⟩ (.cert wCert) (fun _ => .accept) = .reject ∧
+    checkHostKey ⟨some [wCert.sigKey.marshal], .unset⟩ (.cert wCert) (some []) (fun _ _ => .accept) = .reject := by
+  decide +kernel
+/-- `checkHostKey_iff`: a host certificate (type 2) with a listed authority and a splittable address -/
+example : checkHostKey ⟨some [wCert.sigKey.marshal], .unset⟩ (.cert { wCert with certType := 2 }) (some (nm "h"))
+    (fun _ _ => .accept) = .accept := by decide +kernel
+/-- `parseTuples_putTuples`: two sorted options, one with a value -/
+example : parseTuples (putTuples [(nm "a", []), (nm "b", nm "v")]) = some [(nm "a", []), (nm "b", nm "v")] := by
+  decide +kernel
+
 /-! ## no panic inside the check -/
 
 def plainAlgos : List Bytes :=
@@ -422,5 +442,109 @@ theorem parseCertNoCheck_marshal_some (o : PtOracle) (a b : Bytes) (c : Cert)
   cases hf : (certKeyAlgoNames.find? (fun q => q.2 = a)).map (·.1) with
   | none => rw [hf] at this; cases this
   | some t => simp
+
+/-! ## SignCert: the option maps are written in sorted order -/
+
+theorem bytesLt_total : ∀ (a b : Bytes), bytesLt a b = false → a ≠ b → bytesLt b a = true := by
+  intro a
+  induction a with
+  | nil => intro b h hne; cases b with
+    | nil => exact absurd rfl hne
+    | cons y t => simp [bytesLt] at h
+  | cons x s ih =>
+    intro b h hne
+    cases b with
+    | nil => simp [bytesLt]
+    | cons y t =>
+      simp only [bytesLt] at h ⊢
+      by_cases h1 : x.toNat < y.toNat
+      · simp [h1] at h
+      · by_cases h2 : y.toNat < x.toNat
+        · simp [h2]
+        · have hxy : x = y := UInt8.toNat_inj.mp (by omega)
+          subst hxy
+          simp only [h1, ↓reduceIte] at h ⊢
+          exact ih t h (fun e => hne (by rw [e]))
+
+theorem okAfter_some (l k : Bytes) : okAfter (some l) k = bytesLt l k := by
+  simp [okAfter, bytesLe]
+
+theorem insertKV_sorted (kv : Bytes × Bytes) : ∀ (l : List (Bytes × Bytes)) (last : Option Bytes),
+    sortedFrom last l = true → okAfter last kv.1 = true → sortedFrom last (insertKV kv l) = true := by
+  intro l
+  induction l with
+  | nil => intro last _ hk; simp [insertKV, sortedFrom, hk]
+  | cons x r ih =>
+    intro last hs hk
+    simp only [sortedFrom, Bool.and_eq_true] at hs
+    obtain ⟨hx, hr⟩ := hs
+    unfold insertKV
+    by_cases h1 : bytesLt kv.1 x.1 = true
+    · rw [if_pos h1]
+      simp only [sortedFrom, hk, okAfter_some, h1, hr, Bool.and_self]
+    · rw [if_neg h1]
+      by_cases h2 : kv.1 = x.1
+      · rw [if_pos h2]
+        simp only [sortedFrom, hk, Bool.true_and]
+        rw [h2]; exact hr
+      · rw [if_neg h2]
+        simp only [sortedFrom, hx, Bool.true_and]
+        have ht : bytesLt x.1 kv.1 = true :=
+          bytesLt_total kv.1 x.1 (by simpa using h1) h2
+        exact ih (some x.1) hr (by rw [okAfter_some]; exact ht)
+
+theorem foldl_insert_sorted : ∀ (l acc : List (Bytes × Bytes)), sortedFrom none acc = true →
+    sortedFrom none (l.foldl (fun acc kv => insertKV kv acc) acc) = true := by
+  intro l
+  induction l with
+  | nil => intro acc h; exact h
+  | cons kv t ih => intro acc h; exact ih _ (insertKV_sorted kv acc none h rfl)
+
+/-- `marshalTuples` (sort.Strings over the map keys): whatever order the Go map yields, the written
+    tuples are strictly increasing — what parseTuples demands -/
+theorem sortKV_sorted (l : List (Bytes × Bytes)) : sortedFrom none (sortKV l) = true :=
+  foldl_insert_sorted l [] rfl
+
+theorem insertKV_mem (kv : Bytes × Bytes) : ∀ (l : List (Bytes × Bytes)) (x : Bytes × Bytes),
+    x ∈ insertKV kv l → x = kv ∨ x ∈ l := by
+  intro l
+  induction l with
+  | nil => intro x hx; simp [insertKV] at hx; exact Or.inl hx
+  | cons y r ih =>
+    intro x hx
+    unfold insertKV at hx
+    split at hx
+    · simp only [List.mem_cons] at hx ⊢; rcases hx with h | h | h <;> simp [h]
+    · split at hx
+      · simp only [List.mem_cons] at hx ⊢; rcases hx with h | h <;> simp [h]
+      · simp only [List.mem_cons] at hx ⊢
+        rcases hx with h | h
+        · simp [h]
+        · rcases ih x h with h' | h' <;> simp [h']
+
+theorem sortKV_mem (l : List (Bytes × Bytes)) (x : Bytes × Bytes) (hx : x ∈ sortKV l) : x ∈ l := by
+  unfold sortKV at hx
+  have : ∀ (l acc : List (Bytes × Bytes)), x ∈ l.foldl (fun acc kv => insertKV kv acc) acc → x ∈ l ∨ x ∈ acc := by
+    intro l
+    induction l with
+    | nil => intro acc h; exact Or.inr h
+    | cons kv t ih =>
+      intro acc h
+      rcases ih _ h with h' | h'
+      · exact Or.inl (List.mem_cons_of_mem _ h')
+      · rcases insertKV_mem kv acc x h' with e | e
+        · exact Or.inl (by rw [e]; exact List.mem_cons_self ..)
+        · exact Or.inr e
+  rcases this l [] hx with h | h
+  · exact h
+  · cases h
+
+example : sortKV [(nm "b", nm "1"), (nm "a", []), (nm "b", nm "2")] = [(nm "a", []), (nm "b", nm "2")] := by
+  decide +kernel
+
+/-- the two option-map obligations of `CertWF` hold for whatever SignCert/Marshal writes from a Go map -/
+theorem sortKV_wf (l : List (Bytes × Bytes)) (h : ∀ kv ∈ l, TupWF kv) :
+    sortedFrom none (sortKV l) = true ∧ ∀ kv ∈ sortKV l, TupWF kv :=
+  ⟨sortKV_sorted l, fun kv hkv => h kv (sortKV_mem l kv hkv)⟩
 
 end XC.C41
